@@ -14,6 +14,9 @@ use super::code::*;
 //@include prelude/wilson_lemmas.rs
 //@include prelude/proportion_spec.rs
 //@include prelude/quantile_spec.rs
+//@include prelude/lemmas_c10.rs
+//@include prelude/lemmas_c10_prop.rs
+//@include prelude/lemmas_c10_quantile.rs
 } // mod spec
 
 pub mod code {
